@@ -100,6 +100,8 @@ pub struct Sys {
     rx: std::sync::Mutex<mpsc::Receiver<NetworkEvent>>,
     bulk: bool,
     liveness: bool,
+    /// wall-clock instant at which this object's fetcher was last brought up to date (see `freeze_time`)
+    touched: std::time::Instant,
 }
 
 impl Clone for Sys {
@@ -118,6 +120,7 @@ impl Clone for Sys {
             rx: std::sync::Mutex::new(rx),
             bulk: self.bulk,
             liveness: self.liveness,
+            touched: self.touched,
         }
     }
 }
@@ -150,7 +153,15 @@ impl Sys {
     fn new(u: Arc<Uni>, bulk: bool) -> Sys {
         let (tx, rx) = mpsc::channel(100_000);
         let f = VerifFetcher::new(u.me, tx);
-        Sys { u, f, held: HashMap::new(), range_gap: None, full_farthest: None, age_pending: HashMap::new(), age_inflight: HashMap::new(), queued_under: HashMap::new(), rx: std::sync::Mutex::new(rx), bulk, liveness: true }
+        Sys { u, f, held: HashMap::new(), range_gap: None, full_farthest: None, age_pending: HashMap::new(), age_inflight: HashMap::new(), queued_under: HashMap::new(), rx: std::sync::Mutex::new(rx), bulk, liveness: true, touched: std::time::Instant::now() }
+    }
+    /// The fetcher stores real `Instant` deadlines, and a copy may sit in the search frontier for longer than the
+    /// 20 s fetch timeout of wall-clock time. Model time moves only through `Age` steps: whatever wall-clock time
+    /// passed since this object was last touched is added back to every deadline before anything else happens.
+    fn freeze_time(&mut self) {
+        let dt = self.touched.elapsed();
+        self.f.unage(dt);
+        self.touched = std::time::Instant::now();
     }
     fn kidx(&self, k: &RecordKey) -> usize {
         self.u.keys.iter().position(|x| x == k).expect("key of the universe")
@@ -383,6 +394,7 @@ impl System for Sys {
     }
 
     fn step(&mut self, a: &Act, fails: &mut Vec<Fail>) {
+        self.freeze_time();
         // in-flight entries that count as "already in flight" for this step: every scheduling call prunes
         // entries past their timeout first, and an arrival / completion ends the fetches it names first
         let timed_out_now: BTreeSet<(usize, usize, usize)> = self.age_inflight.iter().filter(|(_, (_, age))| *age >= FETCH_TIMEOUT_S).map(|((k, t), (h, _))| (*k, *t, *h)).collect();
